@@ -782,6 +782,28 @@ def part_axes_default(ctx, shard):
             ("np.cumprod", lambda x: np.cumprod(x.reshape(-1)), lambda d: np.cumprod(d.reshape(-1)), "ragged"),
             ("np.cumsum", lambda x: np.cumsum(x.reshape(-1)), lambda d: np.cumsum(d.reshape(-1)), None),
         ]
+        if len(shape) > 1:
+            # masks that BROADCAST against the operand (w8: the factor count was taken from the mask as given): a mask of lower
+            # rank (one flag per last-axis position, as an array and as a plain list), and one flag per first-axis position
+            m_low = np.ones(shape[-1], dtype=bool)
+            m_low_l = [True] * shape[-1]
+            m_lead = np.ones((shape[0],) + (1,) * (len(shape) - 1), dtype=bool)
+            m_lead[0] = False
+            m_low_part = m_low.copy()
+            m_low_part[0] = False
+            calls += [
+                ("multiply.reduce(where-lower-rank)", lambda x: np.multiply.reduce(x, axis=0, where=m_low), lambda d: np.multiply.reduce(d, axis=0, where=m_low), None),
+                ("prod-method(where-lower-rank)", lambda x: x.prod(axis=0, where=m_low), lambda d: d.prod(axis=0, where=m_low), None),
+                ("prod-method(where-list)", lambda x: x.prod(axis=0, where=m_low_l), lambda d: d.prod(axis=0, where=m_low_l), None),
+                ("np.prod(where-lower-rank)", lambda x: np.prod(x, axis=0, where=m_low), lambda d: np.prod(d, axis=0, where=m_low), None),
+                ("prod-method(where-lower-rank,all-axes)", lambda x: x.prod(where=m_low), lambda d: d.prod(where=m_low), None),
+                ("multiply.reduce(where-leading-flags)", lambda x: np.multiply.reduce(x, axis=0, where=m_lead), lambda d: np.multiply.reduce(d, axis=0, where=m_lead), None),
+                ("prod-method(where-leading-flags)", lambda x: x.prod(axis=0, where=m_lead), lambda d: d.prod(axis=0, where=m_lead), None),
+                ("np.prod(where-leading-flags,last-axis)", lambda x: np.prod(x, axis=-1, where=m_lead), lambda d: np.prod(d, axis=-1, where=m_lead), "ragged" if shape[0] > 1 else None),
+                ("prod-method(where-lower-rank-partial)", lambda x: x.prod(axis=0, where=m_low_part), lambda d: d.prod(axis=0, where=m_low_part), "ragged"),
+                ("prod-method(where-lower-rank-partial,last-axis)", lambda x: x.prod(axis=-1, where=m_low_part), lambda d: d.prod(axis=-1, where=m_low_part), None),
+                ("divide.reduce(where-lower-rank)", lambda x: np.divide.reduce(x, axis=0, where=m_low), lambda d: np.divide.reduce(d, axis=0, where=m_low), None),
+            ]
         for cname, f, ref, ragged in calls:
             ctx.count("evaluations")
             ctx.count("transitions")
